@@ -1060,7 +1060,15 @@ def main():
             if per_shape.get(m["shape"], 0) < 2 and len(shp2) < 9:
                 per_shape[m["shape"]] = per_shape.get(m["shape"], 0) + 1
                 shp2.append((m, p))
-        shp, mat = shp2[:8], mat[:6]
+        # the matrix cells in which a non-primitive value is passed by value (the one place where -O 2 changes the
+        # compiler's own code generation): every mutation form once, mutated by the callee, plus one `return` cell
+        cells, seen_mut = [], set()
+        for m, p in mat:
+            if m["construct"] == "valuearg" and m["who"] == "B" and m["mutation"] not in seen_mut:
+                seen_mut.add(m["mutation"])
+                cells.append((m, p))
+        cells += [x for x in mat if x[0]["construct"] == "return"][:1]
+        shp, mat = shp2[:8], cells[:6]
     nrand = 6 if quick else 150
     g_all = c08gen.RandGen(rng)
     rnd = []
